@@ -54,6 +54,11 @@ class Case:
     model: str | None = None
 
 
+def budget_left(t0, mod, tier) -> int:
+    b = getattr(mod, "BUDGET", {"quick": 240, "thorough": 2400})[tier]
+    return max(30, int(b - (time.time() - t0)))
+
+
 class Budget(Exception):
     pass
 
@@ -220,6 +225,17 @@ def _run(prop, mod, tier, seed, work, t0, replay_file) -> int:
                 return 2
             discharged += 1
 
+    # 3b thorough tier: the independent re-checker replays the compiled proofs of the property's module
+    leanchecker = None
+    if built and tier == "thorough" and replay_file is None:
+        signal.alarm(0)
+        p = subprocess.run(["lake", "env", "leanchecker", mod.LEAN_MODULE], cwd=LEAN, capture_output=True, text=True)
+        signal.alarm(budget_left(t0, mod, tier))
+        leanchecker = p.returncode
+        if p.returncode != 0:
+            print("leanchecker rejected " + mod.LEAN_MODULE + ":\n" + (p.stdout + p.stderr)[-1500:])
+            return 2
+
     # 4 correspondence
     rng = random.Random(seed * 1000003 + sum(map(ord, prop)))
     known, _fixed = load_known()
@@ -329,12 +345,14 @@ def _run(prop, mod, tier, seed, work, t0, replay_file) -> int:
                 "evaluations": evaluations, "distinct_nontrivial": len(distinct),
                 "rule": mod.RULE, "samples": samples, "distribution": dist,
                 "known_findings_hit": sorted(known_hits),
-                "tie_broken": tie_broken, "k2_diffs": len(k2_diffs),
+                "tie_broken": tie_broken, "k2_diffs": len(k2_diffs), "leanchecker_exit": leanchecker,
                 **(getattr(mod, "extra_coverage", lambda: {})()),
             },
             "assumptions": list(getattr(mod, "ASSUMPTIONS", [])),
             "wall_s": round(time.time() - t0, 2), "violations": nviol,
         }
+        if "exhaustive" in ev["coverage"] and not isinstance(ev["coverage"]["exhaustive"], bool):
+            ev["coverage"]["exhaustive_scope"] = str(ev["coverage"].pop("exhaustive"))
         (VERIF / "evidence").mkdir(exist_ok=True)
         (VERIF / "evidence" / f"{prop}.json").write_text(json.dumps(ev, indent=1, ensure_ascii=True))
     print(f"{prop} {tier} seed={seed}: {evaluations} cases, {len(distinct)} distinct non-trivial, "
